@@ -18,12 +18,14 @@ def runLoop {D E : Type} : List (RMw D E) → D → List Nat × Except E D
     | .error e => ([m.id], .error e)
     | .ok d' => let r := runLoop ms d'; (m.id :: r.1, r.2)
 
-/-- `Gateway.Execute` after the executor returned `(result, execErr)`: data and error as returned -/
-def execute {D E : Type} (scrub : RMw D E) (user : List (RMw D E)) (result : D) (execErr : Option E) :
-    List Nat × Option D × Option E :=
+/-- `Gateway.Execute` after the executor returned `(result, execErrs)`: the log of middlewares that ran, the data and
+    the errors as returned.  A failing middleware aborts the request — no data — and its error is returned after the
+    errors the execution had reported, which it must not hide (D65). -/
+def execute {D E : Type} (scrub : RMw D E) (user : List (RMw D E)) (result : D) (execErrs : List E) :
+    List Nat × Option D × List E :=
   match runLoop (scrub :: user) result with
-  | (log, .error e) => (log, none, some e)
-  | (log, .ok d) => (log, some d, execErr)
+  | (log, .error e) => (log, none, execErrs ++ [e])
+  | (log, .ok d) => (log, some d, execErrs)
 
 /-- every middleware that does not fail lets the next one run: without failures all run, once, in order -/
 theorem runLoop_all_ok {D E : Type} : ∀ (ms : List (RMw D E)) (d : D),
@@ -60,13 +62,13 @@ theorem runLoop_first_failure {D E : Type} (pre : List (RMw D E)) (m : RMw D E) 
     simp only [List.cons_append, runLoop, hy]
     exact ⟨by simp [this.1], this.2⟩
 
-/-- the scrubber is first and the loop does not look at the executor's error -/
+/-- the scrubber is first and the loop does not look at the executor's errors -/
 theorem execute_log_independent_of_exec_error {D E : Type} (scrub : RMw D E) (user : List (RMw D E)) (result : D)
-    (e₁ e₂ : Option E) : (execute scrub user result e₁).1 = (execute scrub user result e₂).1 := by
+    (e₁ e₂ : List E) : (execute scrub user result e₁).1 = (execute scrub user result e₂).1 := by
   unfold execute; cases runLoop (scrub :: user) result with
   | mk log r => cases r <;> rfl
 
-theorem execute_scrub_first {D E : Type} (scrub : RMw D E) (user : List (RMw D E)) (result : D) (ee : Option E) :
+theorem execute_scrub_first {D E : Type} (scrub : RMw D E) (user : List (RMw D E)) (result : D) (ee : List E) :
     (execute scrub user result ee).1.head? = some scrub.id := by
   unfold execute
   simp only [runLoop]
@@ -76,27 +78,47 @@ theorem execute_scrub_first {D E : Type} (scrub : RMw D E) (user : List (RMw D E
     simp only
     cases (runLoop user d').2 <;> rfl
 
-/-- the data the middlewares leave is the data returned, together with the executor's error -/
-theorem execute_returns_middleware_data {D E : Type} (scrub : RMw D E) (user : List (RMw D E)) (result d : D) (ee : Option E)
+/-- the data the middlewares leave is the data returned, together with the executor's errors -/
+theorem execute_returns_middleware_data {D E : Type} (scrub : RMw D E) (user : List (RMw D E)) (result d : D) (ee : List E)
     (h : (runLoop (scrub :: user) result).2 = .ok d) :
     (execute scrub user result ee).2 = (some d, ee) := by
   unfold execute
   cases hr : runLoop (scrub :: user) result with
   | mk log r => rw [hr] at h; simp at h; subst h; rfl
 
-/-- a middleware that fails — the scrubber included — leaves no data: the response it tripped over is not handed on -/
-theorem execute_error_no_data {D E : Type} (scrub : RMw D E) (user : List (RMw D E)) (result : D) (ee : Option E) (e : E)
+/-- a middleware that fails — the scrubber included — leaves no data, and the errors are the execution's followed by
+    the middleware's -/
+theorem execute_error_no_data {D E : Type} (scrub : RMw D E) (user : List (RMw D E)) (result : D) (ee : List E) (e : E)
     (h : (runLoop (scrub :: user) result).2 = .error e) :
-    (execute scrub user result ee).2 = (none, some e) := by
+    (execute scrub user result ee).2 = (none, ee ++ [e]) := by
   unfold execute
   cases hr : runLoop (scrub :: user) result with
   | mk log r => rw [hr] at h; simp at h; subst h; rfl
 
 /-- in particular when the scrubber itself fails (it could not walk to a place it has to clean) -/
-theorem execute_scrubber_fails {D E : Type} (scrub : RMw D E) (user : List (RMw D E)) (result : D) (ee : Option E) (e : E)
+theorem execute_scrubber_fails {D E : Type} (scrub : RMw D E) (user : List (RMw D E)) (result : D) (ee : List E) (e : E)
     (h : scrub.run result = .error e) :
-    execute scrub user result ee = ([scrub.id], none, some e) := by
+    execute scrub user result ee = ([scrub.id], none, ee ++ [e]) := by
   simp [execute, runLoop, h]
+
+/-- **no error the execution reported is hidden by what the middlewares do**: whatever they return, every error of the
+    execution is among the errors returned -/
+theorem execute_keeps_exec_errors {D E : Type} (scrub : RMw D E) (user : List (RMw D E)) (result : D) (ee : List E) :
+    ∀ x ∈ ee, x ∈ (execute scrub user result ee).2.2 := by
+  intro x hx
+  unfold execute
+  cases runLoop (scrub :: user) result with
+  | mk log r =>
+    cases r with
+    | error e => exact List.mem_append.2 (Or.inl hx)
+    | ok d => exact hx
+
+/-- what the code did before the repair of D65: the middleware's error alone -/
+def executeOld {D E : Type} (scrub : RMw D E) (user : List (RMw D E)) (result : D) (execErrs : List E) :
+    List Nat × Option D × List E :=
+  match runLoop (scrub :: user) result with
+  | (log, .error e) => (log, none, [e])
+  | (log, .ok d) => (log, some d, execErrs)
 
 def FactsSafe (f : Facts.MwFacts) : Prop :=
   f.scrubFirst = true ∧ f.appendInOrder = true ∧ f.loopUnconditional = true ∧ f.errorAborts = true ∧
